@@ -59,6 +59,7 @@ cc_choose(const br_ssl_client_certificate_class **pctx,
 	x = br_ssl_choose_hash((unsigned)auth_types);
 	if (x == 0 && (auth_types & 1) == 0) {
 		memset(choices, 0, sizeof *choices);
+		return;
 	}
 	choices->auth_type = BR_AUTH_RSA;
 	choices->hash_id = x;
